@@ -133,7 +133,7 @@ static Plan gen_c06(uint64_t seed, int64_t index, bool thorough)
         m = model_for(grammar_of(key));
         op = make_sentence_op(rng, key, sh);
         int target = thorough ? int(rng.pick(std::vector<int>{ 1024, 1024, 2048, 4096, 65536 })) : int(rng.pick(std::vector<int>{ 1024, 1024, 1024, 2048 }));
-        if (rng.chance(1, thorough ? 12 : 40)) target = 65536;      // indices beyond 16 bits
+        if (rng.chance(1, thorough ? 12 : 30)) target = 65536 + 24;      // indices beyond 16 bits
         if (!make_deep_op(op, rng, key, target)) mode = "clean";
     }
     else
@@ -723,6 +723,20 @@ static std::vector<Violation> case_c18(const Plan& p, CaseCtx& cx)
                 "wrote '" + printable(written, 300) + "' expected '" + printable(want, 300) + "'; " + brief, p));
             return vs;
         }
+    }
+    // "interprets the returned index as the position in terms(...)": the grammar over those terms is the one written
+    // in the rules, so the outcome is also judged over the grammar's canonical table (G6's own table IS canonical on the
+    // pinned tree); a table built from confused term identities is consistent with itself but not with the grammar
+    {
+        ref::RefResult rc = ref_for(o, REF_CANONICAL);
+        if (!rc.step_limit && (o.out.has_value != rc.accepted || (rc.accepted && o.out.sdigest != rc.sdigest)))
+        {
+            vs.push_back(make_violation("C18", "terms_not_bound_as_written",
+                std::string("parse returned ") + (o.out.has_value ? "a value " + printable(o.out.text, 200) : std::string("no value")) + "; over the grammar as written (canonical table) the answer is " +
+                (rc.accepted ? printable(rc.text, 200) : std::string("no value")) + "; " + brief, p));
+            return vs;
+        }
+        if (cx.st) cx.st->add("judged_against_canonical_table_too");
     }
     return vs;
 }
